@@ -268,6 +268,32 @@ func (x *Exec) compile(env *Env, e SExpr) Value {
 		a, b = x.unify(env, a, b)
 		return TV{Ite(c.T, a.T, b.T), a.Ty}
 	case *SQuant:
+		if e.UseWitness {
+			ch := env.child()
+			for i, v := range e.Vars {
+				ty := ch.resolveType(v.Type)
+				var w TV
+				func() {
+					// on a path where the witness expression means nothing (a local that
+					// does not exist on an early return) any value will do: the clause
+					// is then provable only if it does not depend on the witness
+					defer func() {
+						if r := recover(); r != nil {
+							if _, ok := r.(specError); !ok {
+								panic(r)
+							}
+							w = TV{x.fresh("nowitness", x.ti.SortOf(ty)), ty}
+						}
+					}()
+					w = x.compileTV(env, e.Witness[i])
+				}()
+				if x.ti.SortOf(ty) != w.T.Sort {
+					env.fail("witness for %s has sort %s, want %s", v.Name, w.T.Sort, x.ti.SortOf(ty))
+				}
+				ch.bound[v.Name] = TV{w.T, ty}
+			}
+			return x.compileTV(ch, e.Body)
+		}
 		ch := env.child()
 		var bound []*Term
 		var guards []*Term
